@@ -97,6 +97,8 @@ GHOST = {
 }
 
 NOTES = {
+    # ghost variables written by models of external calls (for loop write sets)
+    'extern_writes': {'idle_add': ['sched_send', 'sched_recv']},
     # what a callable stored in an attribute of this name may write (see bp_models.cb_callback)
     'callback_writes': {'action': ['Ctr.actions', 'Ctr.status_reason', 'Ctr.route', 'Ctr.sender', 'ghost.consumed',
                                    'ghost.sched_send', 'ghost.step_failed'], 'sender': []},
